@@ -2,6 +2,7 @@ import Driver.Util
 -- one import per component (keep sorted; one line each so that merges stay trivial)
 import Driver.Ops.Data
 import Driver.Ops.Envelope
+import Driver.Ops.Policy
 import Driver.Ops.Proxy
 import Driver.Ops.Reply
 open Slimta Slimta.Driver
@@ -12,6 +13,7 @@ def dispatch (line : String) : String :=
   -- one line per component
   | "data" :: rest => dataOp rest
   | "envelope" :: rest => envelopeOp rest
+  | "policy" :: rest => policyOp rest
   | "proxy" :: rest => proxyOp rest
   | "reply" :: rest => replyOp rest
   | _ => "bad-op"
